@@ -12,6 +12,7 @@ import subprocess
 import sys
 
 SRC = sys.argv[1]
+OFFSET = int(sys.argv[2]) if len(sys.argv) > 2 else 0  # round 2 changes are numbered 4..6
 VERIF = os.path.dirname(os.path.dirname(os.path.abspath(__file__)))
 # changes the checks missed when first run against them, and what was strengthened (DESIGN.md section 10)
 MISSED = {
@@ -46,7 +47,7 @@ for d in sorted(os.listdir(SRC)):
         note = os.path.join(SRC, d, f"note{n}.txt")
         if not (os.path.exists(patch) and os.path.exists(demo)):
             continue
-        sid = f"{prop}-{n}"
+        sid = f"{prop}-{n + OFFSET}"
         r = subprocess.run([os.path.join(VERIF, "tools", "seedcheck.sh"), patch, demo, prop], capture_output=True, text=True)
         out = r.stdout + r.stderr
         confirmed = "MUTANT REJECTED" not in out and "suite: passes" in out
